@@ -232,6 +232,9 @@ class Engine:
     def verify_lemma(self, L):
         """Obligations of a lemma proved by well-founded induction (explicit schema)."""
         ex = self.bare_exec(f"lemma:{L.name}")
+        if L.assumed:
+            self.assumptions_used.add(f"AXIOM {L.name}: {L.goal} ({L.notes})")
+            return ex
         try:
             st = State()
             for v, k in L.vars.items():
@@ -274,6 +277,8 @@ class Engine:
         hy = [ex.truth(ex.ev_spec(h, s2)) for h in L.hyps]
         g = ex.truth(ex.ev_spec(L.goal, s2))
         self.lemmas_used.add(lem)
+        if L.assumed:
+            self.assumptions_used.add(f"AXIOM {L.name}: {L.goal} ({L.notes})")
         return z3.Implies(z3.And(*hy), g) if hy else g
 
 
@@ -296,6 +301,7 @@ class FnExec:
         self._feas.set("timeout", engine.feas_timeout_ms)
         self.cur_cls = self.q.rsplit(".", 1)[0] if "." in self.q else None
         self.is_spec = False
+        self.cur_line = getattr(self.node, "lineno", 0)
 
     # ------------------------------------------------------------------ utilities
     def feasible(self, st):
@@ -680,6 +686,8 @@ class FnExec:
                 return
             st.heap[(recv.t, attr)] = v
             return
+        if self.eng.spec._plug("setattr_other", self, st, recv, attr, v):
+            return
         raise Unsupported(f"attribute store on {recv.kind}")
 
     def mangle(self, attr):
@@ -869,6 +877,60 @@ class FnExec:
                 continue
             yield from self.loop_cut(node, st1, guard=None, it=itv)
 
+    def gen_step(self, gen, st):
+        """one step of a generator under its (separately verified) step contract: nondeterministically it
+        ends (ends clauses hold), raises (may), or yields a value for which the yields clauses hold."""
+        c, genv_env, ghost = gen.t
+        refs = set()
+        for p_ in c.modifies:
+            v = genv_env.get(p_)
+            if v is not None and v.kind == "ref":
+                refs.add(v.t)
+
+        def clause_state(s, yielded=None):
+            cs = State()
+            cs.pc, cs.heap, cs.env = s.pc, s.heap, dict(genv_env)
+            cs.ghost = dict(ghost)
+            if yielded is not None:
+                cs.ghost["yielded"] = yielded
+            return cs
+        sub = FnExec.__new__(FnExec)
+        sub.__dict__.update(self.__dict__)
+        sub.c = c
+        sub.mi = front.load_module(front.split_qualname(c.qualname)[0])
+        head = clause_state(st)
+        lp = c.loops.get(0)
+        head_ghost = {}
+        if lp is not None:
+            for g, e in lp.ghost_head.items():
+                head_ghost[g] = sub.ev_spec(e, head)
+        # raise outcomes
+        for exc, kind, cond in c.raises:
+            s_r = st.clone()
+            s_r.heap = dict(s_r.heap)
+            self.havoc(s_r, [], refs)
+            if self.feasible(s_r):
+                yield s_r, "raise", SV("exc", exc)
+        # end
+        s_e = st.clone()
+        s_e.heap = dict(s_e.heap)
+        self.havoc(s_e, [], refs)
+        cs = clause_state(s_e)
+        cs.ghost.update(head_ghost)
+        for name, e in c.ends:
+            s_e.assume(sub.truth(sub.ev_spec(e, cs)))
+        yield s_e, "end", None
+        # yield
+        s_y = st.clone()
+        s_y.heap = dict(s_y.heap)
+        self.havoc(s_y, [], refs)
+        yv = self.eng.spec.fresh_yield(self, c, s_y)
+        cs = clause_state(s_y, yv)
+        cs.ghost.update(head_ghost)
+        for name, e in c.yields:
+            s_y.assume(sub.truth(sub.ev_spec(e, cs)))
+        yield s_y, "yield", yv
+
     def iter_model(self, itv, st):
         """returns (length term or None, elem(k term)->SV)."""
         if itv.kind == "iter_count":
@@ -891,7 +953,13 @@ class FnExec:
         lname = f"loop{idx}"
         kname = f"__k{idx}"
         st = st.clone()
-        if it is not None:
+        is_gen = it is not None and it.kind == "gen"
+        if is_gen:
+            length, elem = None, None
+            st.env[kname] = sv_int(0)
+            if spec.index:
+                st.ghost[spec.index] = st.env[kname]
+        elif it is not None:
             length, elem = self.iter_model(it, st)
             st.env[kname] = sv_int(0)
             if spec.index:
@@ -928,15 +996,29 @@ class FnExec:
                     yield st3, ("raise", g.exc)
                     continue
                 branches.append((st3, g))
+        elif is_gen:
+            branches = []
+            for st3, kind_, val in self.gen_step(it, hs):
+                if kind_ == "raise":
+                    yield st3, ("raise", val)
+                elif kind_ == "end":
+                    s_end = st3.clone()
+                    if self.feasible(s_end):
+                        yield from self.exec_block(node.orelse, s_end)
+                else:
+                    branches.append((st3, z3.BoolVal(True), val))
         else:
             k = hs.env[kname].t
             branches = [(hs, (k < length) if length is not None else z3.BoolVal(True))]
-        for st3, c in branches:
+        for br in branches:
+            st3, c = br[0], br[1]
             # body
             sb = st3.clone()
             sb.assume(c)
             if self.feasible(sb):
-                if it is not None:
+                if is_gen:
+                    self.assign(node.target, br[2], sb)
+                elif it is not None:
                     self.assign(node.target, elem(sb.env[kname].t), sb)
                 for g, e in spec.ghost_head.items():
                     sb.ghost[g] = self.ev_spec(e, sb)
@@ -955,6 +1037,9 @@ class FnExec:
                             length2, _ = self.iter_model(it, st5)
                             self.oblige(st5, f"{lname}.index-bound", st5.env[kname].t <= length2, "loop-preserve", node.lineno)
                         uses = self.inst_uses(spec.use, st5, None)
+                        for label, e in spec.step:
+                            self.oblige(st5, f"{lname}.step[{label}]", self.truth(self.ev_spec(e, st5)), "loop-step",
+                                        node.lineno, use=uses)
                         for label, inv in spec.inv:
                             self.oblige(st5, f"{lname}.preserve[{label}]", self.truth(self.ev_spec(inv, st5)),
                                         "loop-preserve", node.lineno, use=uses)
@@ -962,12 +1047,17 @@ class FnExec:
                             v1 = self.ev_spec(spec.decreases, st5).t
                             self.oblige(st5, f"{lname}.variant", z3.And(v0 >= 0, v1 < v0), "termination", node.lineno)
                     elif sig is BREAK:
+                        for label, e in spec.step:
+                            self.oblige(st4, f"{lname}.step[{label}]", self.truth(self.ev_spec(e, st4)), "loop-step",
+                                        node.lineno, use=self.inst_uses(spec.use, st4, None))
                         yield st4, FALL
                     else:
                         yield st4, sig
             else:
                 self.dead_paths += 1
             # exit
+            if is_gen:
+                continue
             se = st3.clone()
             se.assume(z3.Not(c))
             if self.feasible(se):
@@ -1093,7 +1183,13 @@ class FnExec:
         for st1, vs in self.ev_list(node.elts, st):
             yield st1, (vs if isinstance(vs, Raised) else sv_tuple(vs))
 
-    e_List = e_Tuple
+    def e_List(self, node, st):
+        if not node.elts and not self.is_spec:
+            r = self.eng.spec._plug("list_literal", self, st)
+            if r is not None:
+                yield from r
+                return
+        yield from self.e_Tuple(node, st)
 
     def e_Set(self, node, st):
         for st1, vs in self.ev_list(node.elts, st):
@@ -1162,9 +1258,15 @@ class FnExec:
                     continue
                 terms = [c0]
                 ok = True
+                guard_st = st1
                 for x in node.values[1:]:
-                    outs = list(self.ev_cond(x, st1))
-                    if len(outs) != 1 or isinstance(outs[0][1], Raised) or outs[0][0].pc != st1.pc:
+                    # later operands are only evaluated when the earlier ones did not short-circuit: their
+                    # safety obligations carry that guard
+                    guard_st = guard_st.clone()
+                    guard_st.assume(terms[-1] if is_and else z3.Not(terms[-1]))
+                    n_pc = len(guard_st.pc)
+                    outs = list(self.ev_cond(x, guard_st))
+                    if len(outs) != 1 or isinstance(outs[0][1], Raised) or len(outs[0][0].pc) != n_pc:
                         ok = False
                         break
                     terms.append(outs[0][1])
@@ -1212,7 +1314,7 @@ class FnExec:
         for c in ast.walk(node):
             if isinstance(c, ast.Call):
                 f = c.func
-                if isinstance(f, ast.Name) and f.id in ("len", "isinstance", "bool", "int", "old", "forall", "implies"):
+                if isinstance(f, ast.Name) and f.id in ("len", "isinstance", "bool", "int", "old", "forall", "implies", "same"):
                     continue
                 if self.is_spec:
                     continue
@@ -1252,6 +1354,8 @@ class FnExec:
                 return sv_bytes(z3.Concat(self.as_bytes(a, st), self.as_bytes(b, st)))
             if isinstance(op, ast.Mult):
                 raise Unsupported("bytes * n")
+        if a.kind == "objseq" and b.kind == "objseq" and isinstance(op, ast.Add):
+            return SV("objseq", z3.Concat(a.t, b.t))
         if a.kind == "str" and b.kind == "str" and isinstance(op, ast.Add):
             return sv_str(z3.Concat(a.t, b.t))
         if a.kind == "tuple" and b.kind == "tuple" and isinstance(op, ast.Add):
@@ -1499,6 +1603,8 @@ class FnExec:
             yield from self.index(vs[0], vs[1], st1)
 
     def slice(self, seq, lo, hi, st):
+        if seq.kind == "obj":
+            seq = sv_bytes(self.as_bytes(seq, st, f"sliced value@{self.cur_line}"))
         if seq.kind not in ("bytes", "str"):
             r = self.eng.spec.slice_hook(self, seq, lo, hi, st)
             if r is not None:
@@ -1605,6 +1711,12 @@ class FnExec:
                 e = self.entry_with(st)
                 yield st, self.ev_spec(node.args[0], e, self._result)
                 return
+            if node.func.id == "same":
+                # structural identity of two dynamic values (same Python type and same value), stronger than ==
+                a = self.ev_spec(node.args[0], st, self._result)
+                b = self.ev_spec(node.args[1], st, self._result)
+                yield st, sv_bool(to_obj(a) == to_obj(b))
+                return
             if node.func.id == "implies":
                 a = self.truth(self.ev_spec(node.args[0], st, self._result))
                 b = self.truth(self.ev_spec(node.args[1], st, self._result))
@@ -1702,6 +1814,22 @@ class FnExec:
                 bound[k] = sub.ev1(v[1], State())
         if c.inline:
             yield from self.inline_call(c, mi, q, fn_node, bound, st)
+            return
+        if c.generator:
+            # calling a generator function only creates the generator; its step contract is applied by the
+            # consuming for-loop (loop_cut)
+            genv = State()
+            genv.heap = st.heap
+            for p_, kind in c.types.items():
+                genv.env[p_] = bound[p_]
+            ghost = {}
+            subg = FnExec.__new__(FnExec)
+            subg.__dict__.update(self.__dict__)
+            subg.c, subg.mi, subg.entry = c, mi, genv
+            for g, e in c.ghost.items():
+                ghost[g] = subg.ev_spec(e, genv)
+                genv.ghost[g] = ghost[g]
+            yield st, SV("gen", (c, dict(genv.env), ghost))
             return
         # modular call: callee contract only
         cst = State()
